@@ -167,6 +167,14 @@ static J run(const J& c)
                 w.p.reset(); // the moved-from parser is gone for good
                 w.p = std::move(p2);
             }
+            else if (op == "MoveAssignParser")
+            {
+                auto p2 = std::make_unique<no::parser>("other", "another parser", "its group");
+                p2->toggle("leftover", "declared in the target before the assignment");
+                *p2 = std::move(*w.p);
+                w.p.reset(); // the moved-from parser is gone for good
+                w.p = std::move(p2);
+            }
             else if (op == "TryParse")
             {
                 const char* argv[] = { "prog" };
